@@ -840,6 +840,9 @@ func execHsClient(args []string) string {
 		tmo = 300 * time.Millisecond
 	}
 	opt := &gws.ClientOption{Addr: "ws://verif.test/verif", HandshakeTimeout: tmo, Logger: quietLogger{}}
+	// the read buffer size is not part of the case: vary it deterministically (default, tiny, larger than the
+	// default, large) - what the client accepts and delivers must not depend on it
+	opt.ReadBufferSize = []int{0, 16, 8192, 65536}[hashString(raw+cuts+frames)%4]
 	if len(rh) > 0 {
 		opt.RequestHeader = rh
 	}
